@@ -43,9 +43,12 @@ static const char *const PORT_V[] = {"", ":", ":0", ":80", ":4294967295", ":4294
 static const char *const PATH_V[] = {"", "/", "/p", "/p/q", /* thorough */ "/p/", "/a:b", "/x@y", "/%2F"};
 /* query is written with its '?' */
 static const char *const QUERY_V[] = {"", "?", "?a", "?a=1", "?a=1&b", "?&&a=&", "?a=b=c",
+                                      /* several empty-valued parameters (added after a seeded change in the builder's size
+                                       * estimate that only bites with >= 2 empty values) */
+                                      "?a&b", "?a=&b=&c=x", "?a&b&c",
                                       /* thorough */ "?a=1&a=2", "?=v", "?a==&&", "?%41=%3d&x"};
 static const struct cset SCHEMES = CSET(SCHEME_V, 3), UINFOS = CSET(UINFO_V, 5), HOSTS = CSET(HOST_V, 6), PORTS = CSET(PORT_V, 8),
-                         PATHS = CSET(PATH_V, 4), QUERIES = CSET(QUERY_V, 7);
+                         PATHS = CSET(PATH_V, 4), QUERIES = CSET(QUERY_V, 10);
 /* numeric ports for the builder (0 = no port) */
 static const uint32_t BPORT_V[] = {0, 1, 80, 65535, 4294967295u, /* thorough */ 9, 10, 65536, 999999999, 1000000000, 2147483648u, 4294967294u};
 #define BPORT_NQ 5
